@@ -1,12 +1,19 @@
 #!/bin/sh
-# usage: tools/try_seed.sh <patch> <Cxx> [<Cxx>...]   — apply a seeded change to /repo, run the checks, revert.
+# usage: tools/try_seed.sh <patch> <Cxx> [<Cxx>...]   — apply a seeded change to a scratch copy of /repo (never /repo itself,
+# so that concurrent checks of the real tree are not disturbed), run the checks against the copy, remove the copy.
 set -u
 PATCH="$1"; shift
+W=$(mktemp -d /tmp/verif-tryseed-XXXXXX)
+rsync -a --exclude /target --exclude /.git /repo/ "$W/repo/"
+( cd "$W/repo" && git init -q && git apply --whitespace=nowarn "$PATCH" ) || { echo "patch does not apply"; rm -rf "$W"; exit 3; }
 cd /verif
-if [ -n "$(git -C /repo status --porcelain)" ]; then echo "/repo not clean"; exit 3; fi
-git -C /repo apply --whitespace=nowarn "$PATCH" || { echo "patch does not apply"; exit 3; }
 for p in "$@"; do
-  VERIF_NO_EVIDENCE=1 ./check "$p" --tier quick 2>&1 | grep -E "^(VIOLATED|UNPROVEN|C[0-9]+:|check:)" | cut -c1-400
+  VERIF_REPO="$W/repo" VERIF_NO_EVIDENCE=1 ./check "$p" --tier quick 2>&1 | grep -E "^(VIOLATED|UNPROVEN|C[0-9]+:|check:)" | cut -c1-400
 done
-git -C /repo checkout -- . ; git -C /repo clean -fdq -- . 2>/dev/null
-git -C /repo status --porcelain | head -3
+python3 - "$W/repo" <<'PY'
+import hashlib, shutil, sys
+sfx = '-' + hashlib.sha1(sys.argv[1].encode()).hexdigest()[:8]
+for c in 'PW':
+    shutil.rmtree('/verif/.cache/facts-%s%s' % (c, sfx), ignore_errors=True)
+PY
+rm -rf "$W"
